@@ -71,6 +71,7 @@ def run(ctx):
     ctx.rule("C03.D2", "RESTORE without REPLACE (4 elements), BUSYKEY tolerated")
     ctx.rule("C03.D3", "command states that run a pull / push own a KeyLockGuard by type")
     ctx.rule("C03.D4", "every recognised key-removing Redis command takes the push-before-execute path; failed UMSYNC never forwards the command", exhaustive=True)
+    ctx.rule("C03.D7", "shared with C11: the pre-switch barrier (counter before state read, re-check after enqueue, release iff last, one registered queue per backend, drain of the parked commands) - a command that slips through it executes on the source after the switch")
     ctx.rule("C03.D6", "pull-path transitions on the importing proxy: forward without pulling only when the destination has the key (EXISTS true) or the source has not (DUMP nil); RESTORE only with a dumped entry; source-side DEL only after a Simple / BUSYKEY restore reply")
     ctx.rule("C03.D5", "phase routing tables of source / destination tasks and state encoding round trip", exhaustive=True)
     _transfer_paths(ctx)
@@ -80,6 +81,9 @@ def run(ctx):
     _commands(ctx)
     _umsync_failure(ctx)
     _pull_transitions(ctx)
+    from ..engine import AliasCtx
+    from . import C11 as _c11
+    _c11.run(AliasCtx(ctx, "C03.D7", only={"C11.D1", "C11.D2", "C11.D4", "C11.D5", "C11.D6"}))
     _phases(ctx)
 
 
